@@ -140,19 +140,19 @@ Proof.
     rewrite I1, join_exact. destruct (dhdr d2) as [[[ty' w'] h']|] eqn:Ehd; [|exfalso; apply I2; [lia|reflexivity]].
     destruct (rebuild_facts ty' w' h' (dqt d2) (concat (dfrags d2)) ltac:(lia)) as (img & -> & Himg).
     splits; [apply inv0_reset|discriminate|]. intros (_ & B2 & B3 & B4).
-    split; [split; [apply inv0_reset|cbn; lia]|]. intros f Hf. injection Hf as <-. lia. }
+    split; [split; [apply inv0_reset|cbn [reset_frags dfsize dqt]; lia]|]. intros f Hf. injection Hf as <-. lia. }
   destruct (N.eqb_spec off 0) as [Hz|Hnz].
   - (* first packet of an image *)
     destruct (128 <=? q).
     + pose proof (qt_unmarshal_facts byts) as [Qnp Qok].
-      destruct (qt_unmarshal byts) as [tables n| |] eqn:Eq; [|splits; [split; [reflexivity|intros H; now cbn in H]|discriminate|]|contradiction].
+      destruct (qt_unmarshal byts) as [tables n| |] eqn:Eq; [|splits; [split; [reflexivity|intros H; now cbn [dfsize] in H]|discriminate|]|contradiction].
       * destruct (Qok tables n eq_refl) as (Qn & Qc & Ql). rewrite nsub_suffix by lia.
         set (d2 := mkD true [ndrop n byts] (nlen (ndrop n byts)) (Some (ty, w, h)) tables).
         assert (I2 : Inv0 d2). { split; [unfold d2; cbn [dfsize dfrags concat]; now rewrite app_nil_r|]. intros _. discriminate. }
         pose proof (FIN d2 I2) as F. destruct (if negb (pmarker p) then _ else _) as [d' r]. destruct F as (F1 & F2 & F3).
         splits; [assumption|assumption|]. intros Hb HP HB. apply F3. split; [exact I2|].
         unfold d2; cbn [dfsize dqt]. rewrite nlen_ndrop. lia.
-      * intros _ _ (_ & B2 & B3 & B4). split; [|discriminate]. split; [split; [reflexivity|intros H; now cbn in H]|cbn; lia].
+      * intros _ _ (_ & B2 & B3 & B4). split; [|discriminate]. split; [split; [reflexivity|intros H; now cbn [dfsize] in H]|cbn [dfsize dqt]; lia].
     + set (d2 := mkD true [byts] (nlen byts) (Some (ty, w, h)) (make_qt q)).
       assert (I2 : Inv0 d2). { split; [unfold d2; cbn [dfsize dfrags concat]; now rewrite app_nil_r|]. intros _. discriminate. }
       pose proof (FIN d2 I2) as F. destruct (if negb (pmarker p) then _ else _) as [d' r]. destruct F as (F1 & F2 & F3).
@@ -168,7 +168,7 @@ Proof.
       specialize (Hoff Hb). unfold d2; cbn [dfsize dqt]. lia.
     + destruct (dfirst d); cbn [negb].
       * splits; [apply inv0_reset|discriminate|]. intros _ _ (_ & B2 & B3 & B4). split; [|discriminate].
-        split; [apply inv0_reset|cbn; lia].
+        split; [apply inv0_reset|cbn [reset_frags dfsize dqt]; lia].
       * splits; [exact HI|discriminate|]. intros _ _ HB. split; [exact HB|discriminate].
 Qed.
 
@@ -200,7 +200,7 @@ Proof.
     destruct IH as [IH1 IH2]. split; [assumption|]. intros f [H|H]; [now apply Hfr|now apply IH2]. }
   intros HF. specialize (G hist dinit). destruct (dec_run dinit hist) as [d rs]. cbn [fst snd] in G.
   destruct G as [([H1 _] & B2 & B3 & B4) Hfr]; [|assumption|].
-  { split; [apply inv0_init|]. cbn. unfold omax. lia. }
+  { split; [apply inv0_init|]. cbn [dinit dfsize dqt concat nlen]. unfold omax. lia. }
   unfold retained; cbn [fst]. split; [lia|assumption].
 Qed.
 
